@@ -22,7 +22,8 @@ RULE = ("(a) a battery of several hundred queries over notes, intervals, keys, c
         "MIDI-writer and sequencer class two instances are created, a drawn operation script runs on one and the sibling and the "
         "class defaults must be unchanged; copies of notes and containers are operated on in both directions. Non-trivial: a history "
         "that mutates a returned list and later queries the same function; a call with a non-empty mutable argument; a script with "
-        ">= 2 mutating operations.")
+        ">= 2 mutating operations."
+        ' Also: the battery contains every public function of the theory modules (introspection), confusable neighbours and keyword forms; histories repeat a query before modifying its last answer; every memo table that is empty at import is cleared per case; a systematic pass modifies the answer of each battery query and re-asks its neighbourhood; fft.find_notes call sequences; notes handed out by registered tunings are modified.')
 ASSUMPTIONS = ["known memo tables are cleared at the start of every case so that a failing history replays from a cold start",
                "intervals.invert may reverse in place and back: the argument must be unchanged after the call",
                "Instrument.set_range and chords.from_shorthand's internal second parameter are outside the battery",
